@@ -43,6 +43,15 @@ use tracing::{debug, trace, warn};
 
 /// Generate a fresh self-signed DTLS certificate (EC keypair + PEM round-trip).
 pub fn generate_certificate() -> Result<Certificate> {
+    #[cfg(rustrtc_verif)]
+    if let Some((der, pem)) = crate::verif_hooks::next_certificate() {
+        let signing_key = SigningKey::from_pkcs8_pem(&pem).ok().map(Arc::new);
+        return Ok(Certificate {
+            certificate: vec![der],
+            private_key: pem,
+            dtls_signing_key: signing_key,
+        });
+    }
     let cert = generate_simple_self_signed(vec!["localhost".to_string()])?;
     let pem = cert.signing_key.serialize_pem();
     let signing_key = SigningKey::from_pkcs8_pem(&pem).ok().map(Arc::new);
@@ -966,6 +975,8 @@ impl DtlsInner {
         // Generate new Session ID to force full handshake
         let mut session_id = vec![0u8; 32];
         rand::fill(&mut session_id[..]);
+        #[cfg(rustrtc_verif)]
+        crate::verif_hooks::fill_random(&mut session_id[..]);
 
         let server_hello = ServerHello {
             version: ProtocolVersion::DTLS_1_2,
@@ -1052,6 +1063,9 @@ impl DtlsInner {
             )
         };
         let signature: p256::ecdsa::Signature = signing_key.sign_with_rng(&mut OsRng, &params);
+        #[cfg(rustrtc_verif)]
+        let signature: p256::ecdsa::Signature =
+            signing_key.sign_with_rng(&mut crate::verif_hooks::HookRng, &params);
         let signature_bytes = signature.to_der().as_bytes().to_vec();
         // Self-verification
         let verifying_key = signing_key.verifying_key();
@@ -2204,6 +2218,8 @@ impl HandshakeContext {
     fn new(expected_remote_fingerprint: Option<String>) -> Self {
         // Generate ephemeral key for ECDHE
         let local_secret = EphemeralSecret::random(&mut OsRng);
+        #[cfg(rustrtc_verif)]
+        let local_secret = EphemeralSecret::random(&mut crate::verif_hooks::HookRng);
         let local_public = local_secret.public_key();
         let local_public_key_bytes = local_public.to_encoded_point(false).as_bytes().to_vec();
 
